@@ -50,6 +50,10 @@ def bit_known(fs):
 
 def check(ctx):
     P = ctx.prog
+    # a probed station is reported Lost / not Found when the FDL layer declares its reply missing: that verdict must be the slot
+    # time after the last bus activity (also for a partially received reply) - clause d.pass "slot-expiry-definition" of C11
+    from rules import C11
+    rule.import_clauses(ctx, "C11", lambda s_: C11.check_slot_expiry(s_, P), as_clause="d.timeout")
     for ty, cfg in APPS.items():
         fns = [f for f in P.crate_fns(CR) if f.kind == "assoc" and (f.j.get("self_ty") == ty) and not f.j.get("derived")]
         ctx.anchor("methods of " + ty, len(fns), 4)
